@@ -119,6 +119,16 @@ def rule_sib(ctx):
                 res.ok()
             else:
                 res.violate("%s::%s : dimension-check-missing" % (adt, q), "%s::%s does not return NnError::WrongDimension for a query of the wrong length" % (adt, q), fn_loc(fns[0]))
+            # ... and no answer is produced before that test (an early `return Ok(..)` for k = 0 / an empty index would
+            # answer a malformed query that the sibling kinds reject)
+            tr = Tracer(fns[0]).run()
+            errs = [e.order for e in tr.events if e.kind == "call" and e.name == "Err" and e.args and as_term(e.args[0]) is not None and as_term(e.args[0]).op.endswith("WrongDimension")]
+            res.instance("%s::%s : no answer before the dimension check" % (adt, q))
+            early = [e for e in tr.events if errs and e.order < min(errs) and ((e.kind == "ret" and as_term(e.val) is not None and as_term(e.val).is_call("Ok")) or (e.kind == "call" and e.name == "Ok"))]
+            if early:
+                res.violate("%s::%s : answer-before-dimension-check" % (adt, q), "%s::%s returns an Ok answer before the query's dimension is checked: a malformed query is answered on that path" % (adt, q), fn_loc(fns[0], early[0].node["ln"]))
+            else:
+                res.ok()
     # k-d tree: `?` on the kdtree result + the dependency checks the point first
     for q, dep in (("k_nearest", "nearest"), ("within_range", "within")):
         fns = [f for f in F.find_fns(name=q, krate="linfa_nn") if (f["d"].get("self_adt") or "").endswith("KdTreeIndex")]
@@ -149,7 +159,7 @@ def rule_sib(ctx):
                 res.ok()
             else:
                 res.violate("kdtree::%s : no-point-check" % dep, "the locked kdtree version does not validate the query point first", fn_loc(fns[0]))
-    return res.finish(11)
+    return res.finish(15)
 
 
 CANON = {"<": "<", "<=": "<=", ">": "<", ">=": "<="}
